@@ -784,6 +784,104 @@ def soft_twins(ck, seed, n_rounds):
                 ck.oracle_fail("later-call-differs-after-failed-call:soft:" + name, {"first": name, "seeds": seeds, "call": k}, got[k], twin[k])
 
 
+def multi_object_twins(ck, seed, n_rounds):
+    """Free-standing calls on several objects (vsc.randomize_with(a, b)) that fail - an unsatisfiable inline block, an
+    exception raised by the library while the call is elaborated - then calls on each object alone: against the history
+    without the failed call, and the objects must be idle after the failure (no solver handle on a field, random-size
+    lists hold as many element models as their size, sum equals the sum of the exposed elements)."""
+    import vsc
+    from vsc.model.rand_state import RandState
+    rng = random.Random("C16/multi/%d" % seed)
+
+    def classes():
+        @vsc.randobj
+        class Item:
+            def __init__(self):
+                self.x = vsc.rand_uint8_t()
+                self.y = vsc.rand_uint8_t()
+                self.l1 = vsc.rand_list_t(vsc.uint8_t(), sz=2)
+                self.l2 = vsc.rand_list_t(vsc.uint8_t(), sz=3)
+                self.dyn = vsc.randsz_list_t(vsc.uint8_t())
+
+            @vsc.constraint
+            def c(self):
+                self.x < self.y
+                self.y < 50
+                self.dyn.size.inside(vsc.rangelist((1, 6)))
+        return Item
+
+    def unsat(objs, sd):
+        with vsc.randomize_with(*objs, randstate=RandState.mkFromSeed(sd)):
+            objs[-1].y > 200
+
+    def unsat_first(objs, sd):
+        with vsc.randomize_with(*objs, randstate=RandState.mkFromSeed(sd)):
+            objs[0].y > 200
+
+    def lib_exception(objs, sd):
+        with vsc.randomize_with(*objs, randstate=RandState.mkFromSeed(sd)):
+            objs[0].x < objs[-1].x
+            vsc.unique_vec(objs[0].l1, objs[0].l2)          # sizes differ: rejected while the call is built
+    firsts = [("unsat-on-last-object", unsat), ("unsat-on-first-object", unsat_first), ("library-exception-while-building", lib_exception)]
+
+    def handles(o):
+        out = []
+
+        def walk(m):
+            for f in m.field_l:
+                if hasattr(f, "field_l"):
+                    if getattr(f, "size", None) is not None and getattr(f.size, "var", None) is not None:
+                        out.append(f.name + ".size")
+                    walk(f)
+                elif getattr(f, "var", None) is not None:
+                    out.append(f.name)
+        walk(o.get_model())
+        return out
+
+    def history(first, seeds, n_objs):
+        Item = classes()
+        objs = [Item() for _ in range(n_objs)]
+        idle = None
+        if first is not None:
+            try:
+                with common.quiet():
+                    first(objs, seeds[0])
+            except Exception:
+                pass
+            idle = []
+            for k, o in enumerate(objs):
+                lm = o.get_model().find_field("dyn")
+                idle.append({"object": k, "solver_handles": handles(o), "dyn_models": len(lm.field_l), "dyn_size": int(o.dyn.size),
+                             "dyn_sum": int(o.dyn.sum), "sum_of_exposed": sum(int(v) for v in o.dyn)})
+        out = []
+        for k, sd in enumerate(seeds[1:]):
+            o = objs[k % n_objs]
+            o.set_randstate(RandState.mkFromSeed(sd))
+            try:
+                with common.quiet():
+                    o.randomize()
+                out.append(["ok", int(o.x), int(o.y), [int(v) for v in o.dyn], [int(v) for v in o.l1]])
+            except Exception as e:
+                out.append(["raised", type(e).__name__])
+        return out, idle
+    for rnd in range(n_rounds):
+        seeds = [rng.randrange(1 << 30) for _ in range(6)]
+        n_objs = rng.choice([2, 2, 3])
+        twin, _ = history(None, seeds, n_objs)
+        for name, first in firsts:
+            got, idle = history(first, seeds, n_objs)
+            ck.count("eval_multi_object_twins")
+            for st in idle or []:
+                if st["solver_handles"] or st["dyn_models"] != st["dyn_size"] or st["dyn_sum"] != st["sum_of_exposed"]:
+                    ck.oracle_fail("object-not-idle-after-failed-multi-object-call:" + name, {"first": name, "seeds": seeds, "objects": n_objs}, st,
+                                   "no solver handle, as many element models as the size, sum over the exposed elements")
+                    break
+            if got != twin:
+                k = next(i for i in range(len(twin)) if got[i] != twin[i])
+                ck.oracle_fail("later-call-differs-after-failed-call:multi-object:" + name, {"first": name, "seeds": seeds, "call": k, "objects": n_objs},
+                               got[k], twin[k])
+
+
 def main():
     tier, seed, replay = common.parse_args(sys.argv[1:])
     ck = common.Check("C16", tier, seed, ["C16", "C16Rollback"])
@@ -799,6 +897,7 @@ def main():
     growth_twins(ck, seed, 40 if tier == "thorough" else 3)
     outside_twins(ck, seed, 40 if tier == "thorough" else 3)
     soft_twins(ck, seed, 40 if tier == "thorough" else 3)
+    multi_object_twins(ck, seed, 40 if tier == "thorough" else 3)
     for r in results:
         for k, v in r["counts"].items():
             ck.count(k, v)
